@@ -13,6 +13,7 @@ import DG.Exports
 import DG.EraseProto
 import DG.Trace
 import DG.FcPkg
+import DG.SubsetProto
 /-! Line-protocol driver: one request per line on stdin, one answer per line on stdout. -/
 open DG DG.Sexp
 
@@ -23,6 +24,9 @@ structure DState where
 def joinSp (l : List String) : String := " ".intercalate l
 
 def handle (st : DState) (req : Sexp) : DState × String :=
+  match DG.Subset.Proto.handle req with
+  | some out => (st, out)
+  | none =>
   match req with
   | .list [.atom "g", gx] =>
     match graph? gx with
